@@ -52,6 +52,13 @@ theorem decode_int64_agrees (u : Uni) (s : Seq)
     rw [hp]
   | _ => rfl
 
+/-- **decode64_csi_total.** The closed form of `decode_csi_total` for the 64-bit decoder: for EVERY parameter list
+    and final, `decodeKey64` returns what the report denotes once the modifier / event fields are read with Go's
+    64-bit subtraction. -/
+theorem decode64_csi_total (u : Uni) (params : List (List Int)) (fin : Int) :
+    decodeKey64 u (.csi params fin) = csiDenotes u (int64Params params) fin :=
+  VaxisModel.Props.C09Uni.decode_csi_total u (int64Params params) fin
+
 /-- **decode_min_int64_mods.** The one place where they differ: a modifier parameter that wrapped to
     `math.MinInt64` in the parser (`CSI 97 ; 9223372036854775808 u`) decodes, with 64-bit arithmetic, to the
     mask `MaxInt64` — every modifier bit set — where the ℤ model says "no modifiers"; likewise the event
